@@ -18,9 +18,12 @@ package collection
 import (
 	"errors"
 	"fmt"
+	"hash/crc32"
+	"hash/fnv"
 	"io"
 	"math"
 	"reflect"
+	"runtime"
 	"sort"
 	"strings"
 	"sync"
@@ -28,12 +31,56 @@ import (
 	"testing"
 	"time"
 
+	"github.com/gotid/god/lib/hash"
 	"github.com/gotid/god/lib/logx"
 	"pgregory.net/rapid"
 	"verif.local/kit"
 )
 
 func init() { logx.Disable() }
+
+// Keys that COLLIDE under the repository's own hash function (lib/hash.Hash,
+// 64-bit murmur3) and under the usual 32-bit hashes. A table, shard index or
+// single-flight map keyed by a hash instead of the key confuses exactly these.
+// The 64-bit pairs are constants (verified below, so the class cannot go stale
+// silently); the 32-bit pairs are found once by a birthday search.
+var (
+	c17Murmur64Pairs = [2][2]string{
+		{"app-b1c01c1ebbabfeae", "app-635f1dbb22d2ef8d"},
+		{"cache:user:100016mfbq5izke6w4b75", "cache:user:20002w1C9SrxFsBNdGuxU"},
+	}
+	c17Crc32Pair, c17Fnv32Pair, c17Murmur32Pair [2]string
+)
+
+func c17Birthday(name string, h func(string) uint32) [2]string {
+	seen := make(map[uint32]int32, 1<<19)
+	// keys u<16 hex digits of a mixed counter>: long and varied enough for crc32,
+	// which never collides on inputs that differ in a window of <= 32 bits
+	key := func(i int32) string { return fmt.Sprintf("u%016x", uint64(i+1)*0x9E3779B97F4A7C15) }
+	for i := int32(0); i < 4000000; i++ {
+		v := h(key(i))
+		if j, ok := seen[v]; ok {
+			return [2]string{key(j), key(i)}
+		}
+		seen[v] = i
+	}
+	panic("c17 harness: no colliding key pair found for " + name)
+}
+
+func init() {
+	for _, p := range c17Murmur64Pairs {
+		if p[0] == p[1] || hash.Hash([]byte(p[0])) != hash.Hash([]byte(p[1])) {
+			panic(fmt.Sprintf("c17 harness: %q and %q no longer collide under lib/hash.Hash: the colliding-key class is stale", p[0], p[1]))
+		}
+	}
+	c17Crc32Pair = c17Birthday("crc32", func(k string) uint32 { return crc32.ChecksumIEEE([]byte(k)) })
+	c17Fnv32Pair = c17Birthday("fnv1a-32", func(k string) uint32 {
+		f := fnv.New32a()
+		f.Write([]byte(k))
+		return f.Sum32()
+	})
+	c17Murmur32Pair = c17Birthday("low 32 bits of lib/hash.Hash", func(k string) uint32 { return uint32(hash.Hash([]byte(k))) })
+}
 
 const (
 	c17Tick       = time.Second
@@ -129,6 +176,12 @@ func c17PanicVal(id int) any {
 // is k0..k5; alphabet 1 uses the empty key, format verbs, NUL, invalid UTF-8,
 // multi-byte text and a 64 KiB + 1 key. Models and messages use the labels k<i>.
 func c17RealKeys(alphabet int) []string {
+	switch alphabet {
+	case 2: // keys 2i and 2i+1 collide: murmur3-64 (twice), low 32 bits of murmur3
+		return []string{c17Murmur64Pairs[0][0], c17Murmur64Pairs[0][1], c17Murmur64Pairs[1][0], c17Murmur64Pairs[1][1], c17Murmur32Pair[0], c17Murmur32Pair[1]}
+	case 3: // crc32, fnv-1a 32, murmur3-64
+		return []string{c17Crc32Pair[0], c17Crc32Pair[1], c17Fnv32Pair[0], c17Fnv32Pair[1], c17Murmur64Pairs[0][0], c17Murmur64Pairs[0][1]}
+	}
 	if alphabet == 1 {
 		return []string{"", "%s%d%!v(MISSING)%", "a\x00b", "\xff\xfe\xfd", "Ключ-键-🔑", strings.Repeat("long/*?[", 8192) + "x"}
 	}
@@ -166,6 +219,9 @@ type c17Case struct {
 	Opt int `json:"opt,omitempty"`
 	// KA: key alphabet (see c17RealKeys)
 	KA int `json:"ka,omitempty"`
+	// P: runtime.GOMAXPROCS while the caches are constructed and the case runs
+	// (0 = as the process has it); restored after the case
+	P int `json:"p,omitempty"`
 	C2    *c17Cfg `json:"c2,omitempty"`   // second cache, created 1 us after the first
 	J     int     `json:"j"`     // ns slept before NewCache (seeds the cache's jitter PRNG)
 	Off   int     `json:"off"`   // wheel phase: ticks before the first op
@@ -698,6 +754,9 @@ func c17CheckGroup(ms []*c17Model, exps []int, op c17Op, nk int, vals, rvals []i
 				}
 				if len(flights) >= 2 {
 					m.classes["take-two-keys-in-flight"] = true
+					if partner := fmt.Sprintf("cache %d %s", ci, c17Key(op.T[lead].Key^1)); flights[partner] != nil {
+						m.classes["take-partner-keys-in-flight"] = true
+					}
 				}
 				if len(arr) > 1 {
 					m.classes["take-overlap"] = true
@@ -820,8 +879,12 @@ func c17Run1(c c17Case, classes map[string]bool, known *string) string {
 	for i, r := range real {
 		label[r] = c17Key(i)
 	}
-	if c.KA != 0 {
+	switch c.KA {
+	case 0:
+	case 1:
 		classes["key-alphabet-special"] = true
+	default:
+		classes["key-alphabet-hash-collisions"] = true
 	}
 	pick := func(ci int) *inst {
 		if ci < 0 || ci >= len(insts) {
@@ -1323,6 +1386,15 @@ func c17OpString(o c17Op) string {
 func c17Interp(t *testing.T, c c17Case) (v kit.Verdict) {
 	var fail, known string
 	classes := map[string]bool{}
+	if c.P > 0 {
+		// a cache constructed in a process with few Ps (1-CPU container); set
+		// outside the bubble, restored when the case is over
+		old := runtime.GOMAXPROCS(c.P)
+		defer runtime.GOMAXPROCS(old)
+		classes[fmt.Sprintf("gomaxprocs-%d", c.P)] = true
+	} else if runtime.GOMAXPROCS(0) == 1 {
+		classes["gomaxprocs-1"] = true
+	}
 	res := kit.Bubble(t, func() { fail, known = c17Run(c, classes) })
 	v.NonTrivial = classes["reset-straddle"] || classes["evict"] || classes["take-overlap"]
 	for k := range classes {
@@ -1386,7 +1458,7 @@ type c17RawOp struct {
 	d    int
 }
 
-func c17GenRawOp(nk, nc int) *rapid.Generator[c17RawOp] {
+func c17GenRawOp(nk, nc, ka int) *rapid.Generator[c17RawOp] {
 	// keys skewed towards low indices so that re-sets and re-reads of the same
 	// key are frequent while all nk keys still occur
 	keyGen := rapid.Custom(func(rt *rapid.T) int {
@@ -1435,6 +1507,8 @@ func c17GenRawOp(nk, nc int) *rapid.Generator[c17RawOp] {
 				tkey := key
 				if rapid.IntRange(0, 4).Draw(rt, "other-key") == 0 {
 					tkey = keyGen.Draw(rt, "k2") // callers of different keys must not share executions
+				} else if ka >= 2 && key^1 < nk && rapid.Bool().Draw(rt, "partner-key") {
+					tkey = key ^ 1 // the key colliding with it under some hash
 				}
 				tc := 0
 				if nc > 1 { // callers spread over both caches, same key space, overlapping
@@ -1469,7 +1543,8 @@ func c17Gen(rt *rapid.T) c17Case {
 	if c.Opt&2 != 0 && c.Limit == 0 && rapid.Bool().Draw(rt, "neg-limit") {
 		c.Limit = -1
 	}
-	c.KA = rapid.SampledFrom([]int{0, 0, 0, 1}).Draw(rt, "ka")
+	c.KA = rapid.SampledFrom([]int{0, 0, 0, 1, 2, 3}).Draw(rt, "ka")
+	c.P = rapid.SampledFrom([]int{0, 0, 0, 0, 1, 2}).Draw(rt, "gomaxprocs")
 	c.Exp = c17GenExp(rt, "exp")
 	c.J = rapid.IntRange(0, 999999).Draw(rt, "j")
 	switch rapid.SampledFrom([]string{"any", "any", "any", "end", "end", "begin"}).Draw(rt, "off-class") {
@@ -1481,6 +1556,9 @@ func c17Gen(rt *rapid.T) c17Case {
 		c.Off = rapid.IntRange(0, 5).Draw(rt, "off")
 	}
 	c.NK = rapid.IntRange(1, 6).Draw(rt, "nk")
+	if c.KA >= 2 && c.NK < 2 {
+		c.NK = 2 // at least one colliding pair
+	}
 	if c.Limit > 0 && c.NK <= c.Limit && rapid.IntRange(0, 3).Draw(rt, "nk-over") > 0 {
 		c.NK = c.Limit + 1 // evictions need more keys than the limit
 	}
@@ -1509,7 +1587,7 @@ func c17Gen(rt *rapid.T) c17Case {
 		}
 	}
 	minOps := rapid.SampledFrom([]int{1, 6, 12, 24}).Draw(rt, "min-ops")
-	raw := rapid.SliceOfN(c17GenRawOp(c.NK, nc), minOps, 60).Draw(rt, "ops")
+	raw := rapid.SliceOfN(c17GenRawOp(c.NK, nc, c.KA), minOps, 60).Draw(rt, "ops")
 	now := c.Off
 	gk := make([]c17GenKey, c.NK*nc) // index = cache*NK + key
 	for _, r := range raw {
